@@ -1,4 +1,4 @@
-import D2V.Proofs.QuoteIds
+import D2V.Proofs.QuoteCI
 /-!
   C06 — Object and connection IDs are valid, unambiguous key paths (the part that is provable over the quoting
   model: the absolute ID of an object is its chain of names, each formatted as a key segment and joined with ".").
@@ -11,10 +11,9 @@ import D2V.Proofs.QuoteIds
                               (a dot inside a name never splits it, a quote never swallows a separator);
   * `absID_injective`         distinct name chains have distinct absolute IDs;
   * `objID_parses`            the ID of an object parses to its name (one segment).
-  The `_partial` / `keyFixApplied` variants instantiate `NameOk`.  What is not proved here: the
-  case-insensitive distinctness of AbsIDs inside a graph (needs the tree invariant of C09: siblings differ
-  after lower-casing) and the recoverability of connection IDs (the edge-group syntax is outside the parser
-  model); both are evaluated on every compiled board by the driver (`idsOk`).
+  * `absID_injective_ci`      absolute IDs equal after lower-casing consist of the same lower-cased IDs level by
+                              level (with C09's invariant "siblings differ after lower-casing": the same object).
+  The `_partial` / `keyFixApplied` variants instantiate `NameOk`.
 -/
 namespace D2V.Quote
 open D2V.Gen.Quote
@@ -94,6 +93,43 @@ theorem C06_absID_injective (hfix : keyFixApplied = true) (a b : List Str) (ha :
     (hla : ∀ n ∈ a, utf8LenStr n ≤ maxKeyLen) (hlb : ∀ n ∈ b, utf8LenStr n ≤ maxKeyLen) (hne : a ≠ b) :
     absID a ≠ absID b :=
   absID_injective a b ha hb (fun n hn => nameOk_of_fix hfix (hla n hn)) (fun n hn => nameOk_of_fix hfix (hlb n hn)) hne
+
+/-! ### distinct ignoring case -/
+
+/-- text-level form of `join_dot_unambiguous`: a dot-joined chain of segment texts (any of the three shapes the
+    printer produces, for any strings) splits in one way only -/
+theorem join_dot_unambiguous_text (ts ts' : List Str) (h : ∀ t ∈ ts, IsSegText t) (h' : ∀ t ∈ ts', IsSegText t)
+    (heq : joinDot ts = joinDot ts') : ts = ts' :=
+  joinDot_segs_injective ts ts' h h' heq
+
+/-- if two absolute IDs are equal after lower-casing (any rune map with `LowOk`, e.g. unicode.ToLower), the two
+    chains consist of the same lower-cased IDs, level by level; since the children of an object are keyed by
+    their lower-cased ID (C09: siblings differ there), the two chains name the same object -/
+theorem absID_injective_ci (low : Char → Char) (hlow : LowOk low) (a b : List Str)
+    (hoka : ∀ n ∈ a, NameOk n) (hokb : ∀ n ∈ b, NameOk n)
+    (heq : (absID a).map low = (absID b).map low) :
+    a.map (fun n => (objID n).map low) = b.map (fun n => (objID n).map low) := by
+  unfold absID at heq
+  rw [joinDot_map_low hlow, joinDot_map_low hlow, List.map_map, List.map_map] at heq
+  refine joinDot_segs_injective _ _ ?_ ?_ heq
+  · intro t ht
+    obtain ⟨n, hn, rfl⟩ := List.mem_map.mp ht
+    exact ⟨_, segText_low hlow (fmtKey_segText (hoka n hn))⟩
+  · intro t ht
+    obtain ⟨n, hn, rfl⟩ := List.mem_map.mp ht
+    exact ⟨_, segText_low hlow (fmtKey_segText (hokb n hn))⟩
+
+/-- contrapositive, as the property states it: chains that differ in some lower-cased ID have different
+    absolute IDs, ignoring case -/
+theorem C06_absIDs_distinct_ignoring_case (hfix : keyFixApplied = true) (low : Char → Char) (hlow : LowOk low)
+    (a b : List Str) (hla : ∀ n ∈ a, utf8LenStr n ≤ maxKeyLen) (hlb : ∀ n ∈ b, utf8LenStr n ≤ maxKeyLen)
+    (hne : a.map (fun n => (objID n).map low) ≠ b.map (fun n => (objID n).map low)) :
+    (absID a).map low ≠ (absID b).map low :=
+  fun h => hne (absID_injective_ci low hlow a b (fun n hn => nameOk_of_fix hfix (hla n hn))
+    (fun n hn => nameOk_of_fix hfix (hlb n hn)) h)
+
+/-- `LowOk` is satisfiable -/
+example : LowOk id := ⟨fun _ _ => rfl, fun _ h => h, fun _ => rfl, rfl⟩
 
 /-! non-vacuity and the classic ambiguity that quoting removes -/
 
